@@ -101,6 +101,14 @@ def cmd_seeded(ids, seeds=None):
                 print("%-40s PATCH-FAILED %s" % (sid, p.stdout[-300:]))
                 ok = False
                 continue
+            if meta.get("neutralised_by"):
+                # a later fix: commit made the library robust to this change: it is only kept while its own demonstration
+                # (which fails whenever the property is broken) passes with the change applied to the current HEAD
+                q = subprocess.run(["timeout", "900", sys.executable, os.path.join(base, sid, "demo.py")], capture_output=True, text=True,
+                                   env=dict(os.environ, PYTHONPATH=d), cwd=d)
+                if q.returncode == 0:
+                    print("%-40s NEUTRALISED (demo passes with the change applied: %s)" % (sid, meta["neutralised_by"]), flush=True)
+                    continue
             row = {}
             for pid in meta.get("checks", [meta["property"]]):
                 evp = os.path.join(HERE, "evidence", "%s.json" % pid)
